@@ -10,7 +10,18 @@ git apply "$d/patch.diff"
 suite=$(CARGO_NET_OFFLINE=true cargo nextest run --workspace --no-fail-fast --offline 2>&1 | grep -E '^\s+Summary' | tail -1)
 mkdir -p tests; cp "$d/demo.rs" tests/seeded_demo.rs
 with=$(CARGO_NET_OFFLINE=true cargo nextest run --offline --test seeded_demo --no-fail-fast 2>&1 | grep -E '^\s+Summary' | tail -1)
+rel=""
+case "$with" in
+  *" failed"*) ;;
+  *) # a break that exists only without debug assertions: the demonstration has to run in the release profile
+     withr=$(CARGO_NET_OFFLINE=true cargo nextest run --release --offline --test seeded_demo --no-fail-fast 2>&1 | grep -E '^\s+Summary' | tail -1)
+     rel=" | demo_with(--release): $withr";;
+esac
 git checkout -q -- .
 without=$(CARGO_NET_OFFLINE=true cargo nextest run --offline --test seeded_demo --no-fail-fast 2>&1 | grep -E '^\s+Summary' | tail -1)
+if [ -n "$rel" ]; then
+  withoutr=$(CARGO_NET_OFFLINE=true cargo nextest run --release --offline --test seeded_demo --no-fail-fast 2>&1 | grep -E '^\s+Summary' | tail -1)
+  rel="$rel | demo_without(--release): $withoutr"
+fi
 rm -rf tests
-echo "RESULT suite_with_mutation: $suite | demo_with: $with | demo_without: $without"
+echo "RESULT suite_with_mutation: $suite | demo_with: $with | demo_without: $without$rel"
